@@ -250,7 +250,14 @@ inductive Instr where
   | jmp (l : Nat)
   | caught
   | reraise
+  | cread                -- `T.append(CV.get())`: the body reads the context variable (effect = its value)
+  | cset (v : Nat)       -- `CV.set(v)`
+  | tset (v : Nat)       -- `tok = CV.set(v)`
+  | treset               -- `CV.reset(tok); tok = None` + read   (no token held: effect `noToken`)
   deriving DecidableEq, Repr
+
+/-- effect recorded by `treset` when the body holds no token (the harness renders the same constant) -/
+def noToken : Nat := 998
 
 structure PS where
   code : List Instr
@@ -259,6 +266,10 @@ structure PS where
   hs : List Nat          -- handler stack (pcs)
   cur : Nat              -- exception being handled
   last : Val             -- last value received
+  cv : Nat               -- the context variable as the body sees it.  Every resumption of the generator runs in
+                         -- the ONE `contextvars.Context` captured by the decorator (`ctx_run`; natively: the
+                         -- Task's context), so the variable is simply part of the body's own state
+  tok : Option Nat       -- the live `Token` (= the value to restore), if any
   deriving DecidableEq, Repr
 
 mutual
@@ -278,6 +289,13 @@ def go : Nat → PS → List Eff → Step PS
     | some (.jmp l) => go n { ps with pc := l } effs
     | some .caught => go n { ps with pc := ps.pc + 1 } (effs ++ [Eff.caught ps.cur])
     | some .reraise => unwind n ps effs ps.cur
+    | some .cread => go n { ps with pc := ps.pc + 1 } (effs ++ [Eff.k ps.cv])
+    | some (.cset v) => go n { ps with pc := ps.pc + 1, cv := v } effs
+    | some (.tset v) => go n { ps with pc := ps.pc + 1, cv := v, tok := some ps.cv } effs
+    | some .treset =>
+      match ps.tok with
+      | some old => go n { ps with pc := ps.pc + 1, cv := old, tok := none } (effs ++ [Eff.k old])
+      | none => go n { ps with pc := ps.pc + 1 } (effs ++ [Eff.k noToken])
 def unwind : Nat → PS → List Eff → Nat → Step PS
   | 0, _, effs, _ => .raise effs C36.invalidState
   | n + 1, ps, effs, e =>
@@ -294,8 +312,10 @@ def gen (ps : PS) (inp : Input) : Step PS :=
     | .send v => go fuel { ps with pc := ps.pc + 1, last := v } [Eff.got v]
     | .throw e => unwind fuel ps [] e
 
-def load (code : List Instr) : PS :=
-  { code := code, pc := 0, started := false, hs := [], cur := 0, last := .none }
+/-- `cv`: the value the CALLER gave the context variable before calling the coroutine (default of the
+    variable: 0) — it is what the body sees until it sets the variable itself -/
+def load (code : List Instr) (cv : Nat := 0) : PS :=
+  { code := code, pc := 0, started := false, hs := [], cur := 0, last := .none, cv := cv, tok := none }
 
 end Code
 
